@@ -575,6 +575,9 @@ impl<T: Entry + Clone, const N: usize, const M: usize>
         let mut cols = [N; N];
 
         for col in 0..M {
+            if row >= N {
+                break;
+            }
             if let Some(pr) = Entry::pivot_row(col, row, &u) {
                 if pr != row {
                     u.swap_rows(pr, row);
